@@ -130,7 +130,9 @@ def lookahead_at_boundary(text, doc, dlab):
                 break
             q = t
             j += 1
-        if j < n and (j + 1) % HALF == 0:
+        # the half that follows must hold more than the terminating newline: at the very end of the text there is nothing
+        # a second load of the half could skip
+        if j < n and (j + 1) % HALF == 0 and j + 1 < n - 1:
             return True
         if j == i:
             return False
@@ -279,6 +281,27 @@ def check(tier):
                     exp = [[t[0], t[1], t[2] + k, t[3], t[4] + k if t[3] == 1 else t[4]] for t in t0]
                     if t1 != exp:
                         pos_bad.append((sp, k))
+        # total lengths that are exact multiples of the reader's buffer size (and one byte off), with and without a final newline:
+        # the end of the file then coincides with the end of a read
+        base = sp.rstrip("\n")
+        for L in (HALF, 2 * HALF, 3 * HALF, 4 * HALF):
+            for d_ in (-1, 0, 1):
+                for tail in ("", "\n"):
+                    k = L + d_ - len(base.encode("utf-8")) - len(tail)
+                    if k < 0:
+                        continue
+                    # the padding is a comment line and blanks, so that no blank run comes near the size of a half
+                    padder = ("// pad\n" * (k // 7)) + " " * (k % 7)
+                    text = padder + base + tail
+                    npad += 1
+                    predicted = lookahead_at_boundary(text, doc, dlab)
+                    resp = hook.call({"op": "spec", "text": text}, timeout=(1.5 if predicted else 20))
+                    r1 = ("hang", "") if resp.get("outcome") == "slow" else spec_result(resp)
+                    if r1 != r0:
+                        if predicted:
+                            pad_known.append((len(padder), "/", r1[0]))
+                        else:
+                            pad_bad.append((sp, len(padder), "/", r0[0], r1[0]))
     hook.close()
     rep.obligation("padding sweep: %d paddings give the same specification outside the known finding" % npad, not pad_bad)
     rep.obligation("positions move by exactly the inserted text", not pos_bad)
